@@ -700,7 +700,7 @@ Section Generic.
   Lemma calc_reuse_snd_noequal r olds : forall idx,
     Forall (fun c => equal (c_rule c) r = false) olds ->
     snd (calc_reuse r olds idx None) = option_map (fun i => (idx + i)%nat) (find_reuse r olds).
-  Proof.
+  Proof. clear equal_supported.
     induction olds as [|o rest IH]; intros idx H; cbn; [reflexivity|].
     inversion H as [|? ? Ho Hr]. subst. rewrite Ho.
     destruct (stat_reusable (c_rule o) r) eqn:E; cbn.
@@ -718,7 +718,7 @@ Section Generic.
     forall j o, find_reuse r olds = Some j -> nth_error olds j = Some o ->
     build2 n res (r :: rs) (None :: ms) olds pos
       = {| c_rule := r; c_id := (n, res, pos); c_stat := c_stat o |} :: build2 n res rs ms (remove_nth j olds) (pos + 1).
-  Proof.
+  Proof. clear equal_supported.
     intros Hm Hs He j o Hf Hn. cbn. rewrite Hm, Hs. cbn.
     rewrite (calc_reuse_snd_noequal r olds 0 He), Hf. cbn. rewrite Hn. reflexivity.
   Qed.
@@ -729,7 +729,7 @@ Section Generic.
     find_reuse r olds = None ->
     build2 n res (r :: rs) (None :: ms) olds pos
       = {| c_rule := r; c_id := (n, res, pos); c_stat := (n, res, pos) |} :: build2 n res rs ms olds (pos + 1).
-  Proof.
+  Proof. clear equal_supported.
     intros Hm Hs He Hf. cbn. rewrite Hm, Hs. cbn.
     rewrite (calc_reuse_snd_noequal r olds 0 He), Hf. reflexivity.
   Qed.
@@ -743,7 +743,7 @@ Section Generic.
                      (fst (fst (c_id c)) = n /\
                       (c_stat c = c_id c \/ exists o, In o olds0 /\ stat_reusable (c_rule o) (c_rule c) = true /\ c_stat c = c_stat o)))
            (build2 n res rules m olds pos).
-  Proof.
+  Proof. clear equal_supported.
     induction rules as [|r rs IH]; intros m olds0 olds pos Hsub HF; cbn.
     - destruct m; constructor.
     - inversion HF as [|mo r' ms rs' Hm HF' E1 E2]. subst. cbn.
@@ -783,7 +783,7 @@ Section Generic.
                      (fst (fst (c_id c)) = n /\
                       (c_stat c = c_id c \/ exists o, In o olds /\ stat_reusable (c_rule o) (c_rule c) = true /\ c_stat c = c_stat o)))
            (build n res rules olds).
-  Proof.
+  Proof. clear equal_supported.
     unfold Rules.build. destruct (match_equal res rules olds) as [m rest] eqn:E.
     destruct (match_equal_spec _ _ _ _ _ E) as [H1 H2]. eapply build2_stat_sound; eauto.
   Qed.
@@ -1031,3 +1031,22 @@ Qed.
 Lemma out_only_valid ops k r :
   alookup k (out_rules (fst (out_run out_init ops))) = Some r -> out_valid r = true.
 Proof. apply (out_run_valid ops out_init). intros k0 r0 H. discriminate H. Qed.
+
+(* ------------------------------------------------------------------------------------------ *)
+(* C14: behaviour.  A controller's decisions are a function of the controller object (bound rule,
+   identity, statistics object) and of the runtime store, which rule loading never touches; a kept
+   controller object therefore decides exactly as in the run without the reload. *)
+Section Behaviour.
+  Variable rule rt input decision : Type.
+  Variable cstep : ctrl rule -> rt -> input -> rt * decision.
+
+  Fixpoint ctrace (c : ctrl rule) (st : rt) (ins : list input) : rt * list decision :=
+    match ins with
+    | [] => (st, [])
+    | i :: r => let '(st1, d) := cstep c st i in let '(st2, ds) := ctrace c st1 r in (st2, d :: ds)
+    end.
+
+  Lemma behaviour_invisible n (mo : option (ctrl rule)) c old :
+    served rule n mo c -> mo = Some old -> forall st ins, ctrace c st ins = ctrace old st ins.
+  Proof. intros H -> st ins. cbn in H. subst. reflexivity. Qed.
+End Behaviour.
